@@ -244,8 +244,35 @@ fn gen_content_base(t: &mut Tape, env: &Env, n: usize, column: usize) -> (Conten
         3 => (Content::Text(String::new()), "empty"),
         4 => (Content::Text(format!("#let MARK{n} = 1")), "no-final-newline"),
         5 => {
-            let mut b = format!("#let MARK{n} = 1\n").into_bytes();
-            b.extend_from_slice(&[0xff, 0xfe, b'\n']);
+            // not valid UTF-8 (Latin-1 byte in a comment, UTF-16 mark, truncated sequence), around text that is
+            // formatted or not: a front-end that decodes leniently would find something to rewrite
+            let text = match t.below(3) {
+                0 => format!("#let MARK{n} = 1\n"),
+                _ => fill(t.pick(UNFORMATTED), n),
+            };
+            let bad: &[u8] = match t.below(4) {
+                0 => &[0xff, 0xfe, b'\n'],
+                1 => b"// caf\xe9\n",
+                2 => &[0xe2, 0x82, b'\n'],
+                _ => b"#let  x=\"\xc3\x28\"\n",
+            };
+            let mut b: Vec<u8> = vec![];
+            match t.below(3) {
+                0 => {
+                    b.extend_from_slice(text.as_bytes());
+                    b.extend_from_slice(bad);
+                }
+                1 => {
+                    b.extend_from_slice(bad);
+                    b.extend_from_slice(text.as_bytes());
+                }
+                _ => {
+                    let cut = text.find('\n').map(|i| i + 1).unwrap_or(text.len());
+                    b.extend_from_slice(&text.as_bytes()[..cut]);
+                    b.extend_from_slice(bad);
+                    b.extend_from_slice(&text.as_bytes()[cut..]);
+                }
+            }
             (Content::Bytes(b), "non-utf8")
         }
         6 => (Content::Text(option_sensitive(t, n, column)), "option-sensitive"),
